@@ -485,7 +485,7 @@ func TestCheck(t *testing.T) {
 	_ = logging.SetLogLevel("*", "error")
 	_ = logging.SetLogLevel("f3", "fatal")
 	run := vkit.New("C15", "main", "exploration")
-	n := run.N(2500, 150000)
+	n := run.N(8000, 150000)
 	run.SetRule("one case = seeded (model EC tree: 20-400 epochs, null rounds p<=0.5 plus null runs, 0-6 forks placed before/at/after/sibling-of a finalized base or nested; " +
 		"manifest: finality, bootstrap epoch, initial instance 0/>0/near 1440, committee lookback 1-12, head lookback 0-5, ChainProposedLength 1-200, EC period; " +
 		"history of 0-40 certificates along the main branch put into a real certstore) followed by 6-13 GetProposal queries (instance, EC head class, clock position, " +
